@@ -170,7 +170,7 @@ def _dispatch(a):
 
 def check(tier):
     ck = core.Check("C16", tier)
-    shards, n = (14, 30) if tier == "quick" else (56, 150)
+    shards, n = (14, 60) if tier == "quick" else (56, 150)
     jobs = []
     for i in range(shards):
         small = (tier == "thorough" and i % 4 == 0)
